@@ -91,6 +91,10 @@ DEF_POOL += ["1e999", "-1e999", LONG_LAMBDA, LONG_COMP]
 # are ordinary pool entries
 DEF_POOL += ["re.compile(r'[a\\-z]')", "re.compile(r'[+\\-*/]+')", "re.compile(r'(?i:a)b')", "re.compile(r'(?i-s:a.)b')"]
 ANN_POOL += [('typing.Annotated[int, "doc"]', "typing.Annotated[int, 'doc']"), ('typing.Annotated["Foo", "doc"]', "typing.Annotated[Foo, 'doc']")]
+# patterns the bundled regex parser rejects (possessive quantifiers, atomic groups) keep the other arguments of the call;
+# a right operand of the same precedence level keeps its parentheses
+DEF_POOL += ["re.compile(r'(?>\\s+),', re.M)", "re.compile(r'\\w++', re.I)", "re.compile(r'a*+b', flags=re.S)",
+             "4 * (KB // 3)", "base + (span - 1)", "a * (b % c)", "a - (b + c)", "x | (y ^ z)", "n + (m + k)"]
 # commas inside string / bytes bodies, regexes and values printed by astor are not parameter separators
 DEF_POOL += ["', '", "b', '", "'a, b; c, d'", "re.compile(r'a, b')", "f('x, y', z)", "{'k, l': ', '}", "lambda a, b: (a, b)", "f', {x}, '"]
 ANN_POOL += [("{L}['a, b', 'c']", "{L}['a, b', 'c']"), ('Dict[str, {L}[", "]]', "Dict[str, {L}[', ']]")]
@@ -361,7 +365,11 @@ def work(span: Tuple[int, int, int]) -> Dict[str, Any]:
         """one overloaded function; every other one is preceded by an earlier plain definition of the same name
         (a fallback the overload set then replaces), the history `def g ... ; @overload def g ... ; def g`"""
         pre_, chunks_, impl_ = group_parts(gi, grp)
-        return pre_ + [x for ch in chunks_ for x in ch] + impl_
+        return pre_ + [x for ch in chunks_ for x in ch] + impl_ + method_after(gi)
+
+    def method_after(gi: int) -> List[str]:
+        """a METHOD named like the overloaded function, in a class defined later in the same module: another function"""
+        return [f"class H{lo}_{gi}:", f"    def g{lo}_{gi}(self, q=1): pass"]
 
     def group_parts(gi: int, grp: List[int]) -> Tuple[List[str], List[List[str]], List[str]]:
         pre_ = [f"def g{lo}_{gi}(value, *args, **kwargs): pass"] if gi % 2 else []
@@ -376,7 +384,7 @@ def work(span: Tuple[int, int, int]) -> Dict[str, Any]:
         mixed: List[str] = []
         for i_ in range(max(len(ca), len(cb))):
             mixed += (ca[i_] if i_ < len(ca) else []) + (cb[i_] if i_ < len(cb) else [])
-        return pa + pb + mixed + ia + ib
+        return pa + pb + mixed + ia + ib + method_after(ga) + method_after(gb)
 
     # a third of the groups stays in the module and uses `@overload`; the others live in a package p<lo> and name the
     # decorator through the sibling module `compat` (`from . import compat` ; `@compat.overload`): in a_first, which is
@@ -496,6 +504,20 @@ def work(span: Tuple[int, int, int]) -> Dict[str, Any]:
         ovs = list(fn.overloads) if isinstance(fn, model.Function) else []
         page = [flatten_text(x) for x in format_overloads(fn)] if isinstance(fn, model.Function) else []
         page = [x for x in page if x.startswith("def ")]
+        # the function has exactly its own overloads, and the method of the same name defined later is documented as itself
+        meth = (whole.allobjects.get(f"{gmod(gi)}.H{lo}_{gi}.g{lo}_{gi}") if whole is not None else None)
+        mtext = flatten_text(format_signature(meth)) if isinstance(meth, model.Function) else "<missing>"
+        if whole is not None and (len(ovs) != len(grp) or mtext != "(self, q=1)"):
+            out["violations"].append({"invariant": "OverloadsOfThisFunctionOnly", "failed": ["OverloadsOfThisFunctionOnly"],
+                                      "origin": "overload-method", "input": "\n".join(own), **how,
+                                      "group_src": "\n".join(own), "index": 0,
+                                      **({"modules": alone_modules(gmod(gi), own)} if gmod(gi) != modname else {}),
+                                      "target": f"{gmod(gi) if gmod(gi) != modname else 'm'}.H{lo}_{gi}.g{lo}_{gi}",
+                                      "function": f"{gmod(gi) if gmod(gi) != modname else 'm'}.g{lo}_{gi}",
+                                      "layout": {"params": [], "ret": "none"},
+                                      "expected": {"overloads": len(grp), "method": "(self, q=1)"},
+                                      "observed": {"overloads": len(ovs), "method": mtext, "text": mtext},
+                                      "key": f"overload-method:{gi % 3}:{len(ovs) - len(grp)}:{mtext}"})
         for j, k in enumerate(grp):
             src = write_def(f"g{lo}_{gi}", cases[k], exs[k], deco="@overload\n" if gi % 3 == 0 else "@compat.overload\n", body="...")
             text = flatten_text(format_signature(ovs[j])) if j < len(ovs) else "<missing overload>"
@@ -720,6 +742,17 @@ def replay(ctx: Ctx, path: str) -> int:
         print(f"VIOLATION property=C14 replay={path}")
         ctx.cleanup()
         return 1
+    if w["origin"] == "overload-method":
+        meth = system.allobjects.get(w["target"])
+        func = system.allobjects.get(w["function"])
+        mtext = flatten_text(format_signature(meth)) if isinstance(meth, model.Function) else "<missing>"
+        nov = len(func.overloads) if isinstance(func, model.Function) else -1
+        bad = mtext != w["expected"]["method"] or nov != w["expected"]["overloads"]
+        print("replay:", f"still violated: method shown {mtext!r}, {nov} overloads" if bad else "holds now")
+        if bad:
+            print(f"VIOLATION property=C14 replay={path}")
+        ctx.cleanup()
+        return 1 if bad else 0
     fn = system.allobjects[w.get("target") or f"m.{name}"]
     if w["origin"] == "overload-page":
         if j >= len(fn.overloads):
